@@ -51,6 +51,16 @@ class Source:
         self.impls = []
         for file, f in self.files.items():
             self._collect(file, f["items"])
+        # helpers that did not exist at the pinned commit: every generic walker looks through a call to one of them (see walk)
+        global _NEW_HELPERS
+        byname = {}
+        for fn in self.fns:
+            byname.setdefault(fn.name, []).append(fn)
+        _NEW_HELPERS = {}
+        for name, fs in byname.items():
+            bodies = [x for x in fs if x.body is not None]
+            if len(bodies) == 1 and is_new_helper(bodies[0]) and "test" not in bodies[0].file.split("/")[-1]:
+                _NEW_HELPERS[name] = bodies[0]
 
     def _nested_items(self, file, body):
         """items declared inside function bodies (e.g. the *HashData structs)"""
@@ -213,16 +223,35 @@ def stmt_exprs(s):
     return []
 
 
+_NEW_HELPERS = {}
+
+
+def callee_name(x):
+    if x.get("k") == "mcall":
+        return x["method"]
+    if x.get("k") == "call" and isinstance(x.get("func"), dict) and x["func"].get("k") == "path" and x["func"].get("segs"):
+        return x["func"]["segs"][-1]
+    return None
+
+
 def walk(e):
-    """pre-order over all expression nodes below e (inclusive)"""
-    stack = [e]
+    """pre-order over all expression nodes below e (inclusive).  A call to a function that did not exist at the pinned commit (a helper some
+    clean-up extracted) is followed into that function's body: what a rule looks for "inside f" is still inside f after part of f was given a name."""
+    stack = [(e, ())]
     while stack:
-        x = stack.pop()
+        x, active = stack.pop()
         if not isinstance(x, dict):
             continue
         yield x
         cs = children(x)
-        stack.extend(reversed(cs))
+        extra = []
+        if _NEW_HELPERS and len(active) < 3:
+            nm = callee_name(x)
+            h = _NEW_HELPERS.get(nm) if nm else None
+            if h is not None and nm not in active:
+                for st in h.body or []:
+                    extra.extend((y, active + (nm,)) for y in stmt_exprs(st))
+        stack.extend(reversed([(c, active) for c in cs] + extra))
 
 
 def walk_block(stmts):
@@ -464,7 +493,10 @@ def _pinned_suffixes():
                 ids = _json.load(fh)
             suf = set()
             for i in ids:
-                parts = re.sub(r"<[^<>]*>", "", i).split("::")
+                t_ = i
+                for _ in range(4):
+                    t_ = re.sub(r"(::)?<[^<>]*>", "", t_)
+                parts = [x for x in t_.split("::") if x]
                 suf.add("::".join(parts[-2:]))
                 suf.add(parts[-1])
             _PINNED_S[1] = suf
@@ -479,6 +511,8 @@ def is_new_helper(fn):
     suf = _pinned_suffixes()
     if suf is None:
         return False
+    if getattr(fn, "trait", None):
+        return False            # a trait implementation is not a helper somebody extracted
     q = fn.qname if fn.owner else fn.name
     return q not in suf
 
